@@ -28,7 +28,25 @@ func NewChannelMgr(cfg *Config, defaultTimeShiftBufferDepthS, defaultReceiveNrRa
 
 func (cm *ChannelMgr) AddChannel(ctx context.Context, chName, chDir string) {
 	cm.mu.Lock()
+	cm.addChannelLocked(ctx, chName, chDir)
+	cm.mu.Unlock()
+}
 
+// GetOrAddChannel returns the channel chName and creates it first if it does not exist yet.
+// Lookup and creation happen in one critical section, so that concurrent first uploads of one
+// channel all get the same channel object.
+func (cm *ChannelMgr) GetOrAddChannel(ctx context.Context, chName, chDir string) *channel {
+	cm.mu.Lock()
+	defer cm.mu.Unlock()
+	if ch, ok := cm.channels[chName]; ok {
+		return ch
+	}
+	cm.addChannelLocked(ctx, chName, chDir)
+	return cm.channels[chName]
+}
+
+// addChannelLocked creates the channel; cm.mu must be held.
+func (cm *ChannelMgr) addChannelLocked(ctx context.Context, chName, chDir string) {
 	chCfg := ChannelConfig{
 		Name:                 chName,
 		ReceiveNrRawSegments: cm.defaultReceiveNrRawSegments,
@@ -51,7 +69,6 @@ func (cm *ChannelMgr) AddChannel(ctx context.Context, chName, chDir string) {
 		chCfg.TimeShiftBufferDepthS = cm.defaultTimeShiftBufferDepthS
 	}
 	cm.channels[chName] = newChannel(ctx, chCfg, chDir)
-	cm.mu.Unlock()
 }
 
 func (cm *ChannelMgr) GetChannel(chName string) (*channel, bool) {
